@@ -139,6 +139,9 @@ fn eligible(rd: &Rendered, sp: &Sp) -> Result<bool, &'static str> {
             relational_only = true;
             continue;
         }
+        if tag_on_wrapper_line(rd, e) {
+            return Err("a tag sits on a wrapper line of an unwrap-block (outside the C19 space)");
+        }
         // wrapper lines must be code: a blank wrapper line can be eaten by the blank-line
         // tidying of an earlier run, after which "the line after the opening tag" is another line
         if let Some(u) = unwrap_parts(&rd.text, e) {
@@ -226,6 +229,17 @@ pub fn run(ctx: &mut Ctx) {
             judge_history(ctx, &rd, &sp, &c, "unwrap-layouts", full);
         }
     }
+    // bounded-exhaustive line sequences: default elements ready from step 1, unwrap-blocks from step 2
+    super::docs::lineseq_stage(ctx, if quick { 6 } else { 8 }, 0.99, true, |ctx, rd, sp| {
+        match eligible(rd, sp) {
+            Ok(full) => {
+                for c in [vec![1u8, 2], vec![2, 2], vec![1, 1, 2]] {
+                    judge_history(ctx, rd, sp, &c, "lineseq", full);
+                }
+            }
+            Err(why) => ctx.skip(why),
+        }
+    });
     ctx.note("rule", json!("distinct (source, chain of configuration steps) in which at least one step removed something; idempotence byte-for-byte, stepwise vs direct up to whitespace, nothing stranded"));
 }
 
